@@ -43,11 +43,15 @@ Target_spine == DirsOver({"a"}, {F2, L2} \cup DirsOver({"b"}, {F2, L2} \cup Dirs
 Disk_edit == DirsOver({"a"}, {DF1, L("t1")} \cup DirsOver({"c"}, {DF1, L("t1")}))
 Target_edit == {Nil} \cup DirsOver({"a"}, {F2, F("d1", TRUE), L2} \cup DirsOver({"c"}, {F2, L2}))
 
-ShapeNames == {"wide", "small", "two", "spine", "edit"}
+\* "nest": siblings next to a nested directory (partial removal below a sibling)
+Disk_nest == DirsOver({"a"}, DirsOver({"c", "d"}, {DF1, L("t1")} \cup DirsOver({"e"}, {DF1, U})))
+Target_nest == DirsOver({"a"}, {F2, D(<<>>)})
+
+ShapeNames == {"wide", "small", "two", "spine", "edit", "nest"}
 DiskTreesOf(shape) == CASE shape = "wide" -> Disk_wide [] shape = "small" -> Disk_small [] shape = "two" -> Disk_two
-                        [] shape = "spine" -> Disk_spine [] shape = "edit" -> Disk_edit
+                        [] shape = "spine" -> Disk_spine [] shape = "edit" -> Disk_edit [] shape = "nest" -> Disk_nest
 TargetTreesOf(shape) == CASE shape = "wide" -> Target_wide [] shape = "small" -> Target_small [] shape = "two" -> Target_two
-                          [] shape = "spine" -> Target_spine [] shape = "edit" -> Target_edit
+                          [] shape = "spine" -> Target_spine [] shape = "edit" -> Target_edit [] shape = "nest" -> Target_nest
 
 \* the plan a reconciliation towards `target` yields for the scanned disk
 PlanSet(disk, target) == Diff(<<>>, SyncObs(disk), target)
